@@ -85,6 +85,29 @@ def _mk_leaf(case: pc.Case, names: Dict[str, Poly], casts: bool = False, extra=N
     return leaf
 
 
+def _closure_exprs(du: DefUse, e: ast.AST, at: int, depth: int = 8) -> List[ast.AST]:
+    """e plus the defining expressions of the local names it (transitively) reads at `at`."""
+    out, seen, work = [e], set(), [(e, at, 0)]
+    while work:
+        x, nid, k = work.pop()
+        if k >= depth:
+            continue
+        for y in ast.walk(x):
+            if isinstance(y, ast.Name) and isinstance(y.ctx, ast.Load):
+                for d in du.reaching(nid, y.id):
+                    if d.id in seen or d.value is None:
+                        continue
+                    seen.add(d.id)
+                    out.append(d.value)
+                    work.append((d.value, d.node, k + 1))
+    return out
+
+
+def _derives_from(du: DefUse, e: ast.AST, at: int, pred) -> bool:
+    return any(pred(y) for x in _closure_exprs(du, e, at) for y in ast.walk(x))
+
+
+
 def _str_or_none(case: pc.Case, e: Optional[ast.AST], at: int):
     """('const', value) for a string / None constant reaching here, else ('expr', node)."""
     if e is None:
@@ -358,19 +381,19 @@ def n2_tempo(prog: Program, chk: Check) -> None:
         for (at, c) in joins:
             if at not in reach or not c.args:
                 continue
-            v0, _ = case.value(c.args[0], at)
-            v1, _ = case.value(c.args[1], at) if len(c.args) > 1 else (None, None)
-            infl_first = any(isinstance(x, ast.Name) and x.id.startswith("infl")
-                             for x in ast.walk(v0))
-            infl_second = v1 is not None and any(
-                isinstance(x, ast.Name) and x.id.startswith("infl") for x in ast.walk(v1))
+            def is_infl(y):
+                return isinstance(y, ast.Call) and dotted(y.func) == "self._influence"
+            infl_first = _derives_from(du, c.args[0], at, is_infl)
+            infl_second = len(c.args) > 1 and _derives_from(du, c.args[1], at, is_infl)
             if infl_first or infl_second:
                 chk.add("N2", u, f"[{label}] join side: {norm(c)[:50]}", infl_first,
                         "the new influence must be joined to the left (far) end", c)
     # the window is what the MPS is contracted with
     zips = [c for n in g.nodes if not n.copy_of for c in n.calls()
             if isinstance(c.func, ast.Attribute) and c.func.attr == "zip_up"]
-    used = [c for c in zips if c.args and isinstance(c.args[0], ast.Name) and c.args[0].id == "mpo"]
+    used = [c for n in g.nodes if not n.copy_of for c in n.calls()
+            if c in zips and c.args and _derives_from(
+                du, c.args[0], n.id, lambda y: dotted(y) == "self._mpo")]
     chk.add("N2", u, "window handed to zip_up", len(used) == 1,
             "the temporary MPO of this step is contracted exactly once", used[0] if used else None)
 
@@ -462,9 +485,15 @@ def n2_pt(prog: Program, chk: Check) -> None:
                                "self._dkmax": DKMAX}, extra=extra)
     case = pc.Case(du, lambda nid, e: None)
     leaf = step_leaf(case)
-    ends = [d for d in du.defs if d.name == "end_phase" and d.value is not None]
+    # the phase flag: the local defined by a comparison of the step with num_steps / num_infl
+    ends = [d for d in du.defs if d.value is not None and not d.sel
+            and isinstance(d.value, (ast.Compare, ast.Call))
+            and any(dotted(y) == "self._num_infl" for y in ast.walk(d.value))
+            and any(dotted(y) == "self._step" for y in ast.walk(d.value))]
     if len(ends) != 1:
-        raise AnalysisError("N2: PtTempoBackend.compute_step no longer defines end_phase once")
+        raise AnalysisError("N2: PtTempoBackend.compute_step no longer defines its end-phase "
+                            "flag once (a comparison of self._step with self._num_infl)")
+    flag = ends[0].name
     ev = ends[0].value
     if isinstance(ev, ast.Call) and call_name(ev) == "bool" and len(ev.args) == 1:
         ev = ev.args[0]
@@ -492,11 +521,8 @@ def n2_pt(prog: Program, chk: Check) -> None:
     if not calls:
         raise AnalysisError("N2: PtTempoBackend.compute_step no longer computes an influence")
     for phase in (True, False):
-        dec = lambda e, phase=phase: phase if (isinstance(e, ast.Name) and e.id == "end_phase") \
-            else None  # noqa: E731
-
         def decide(nid, e, phase=phase):
-            if isinstance(e, ast.Name) and e.id == "end_phase":
+            if isinstance(e, ast.Name) and e.id == flag:
                 return phase
             return pc.none_decider(_is("self._dkmax"), False)(e)
         case = pc.Case(du, decide, f"end_phase={phase}")
